@@ -176,6 +176,30 @@ func init() {
 				})
 			})
 		}
+		// size families: deep chains, wide fan-out, many roots
+		for size := 1; size <= 60 && !c.Expired(); size++ {
+			if !c.Take() {
+				continue
+			}
+			var dc, dw, dr []int
+			var nc, nw, nr []string
+			for l := 1; l <= size; l++ {
+				dc = append(dc, l)
+				nc = append(nc, fmt.Sprintf("n%d", l))
+			}
+			dw, nw = append(dw, 1), append(nw, "r")
+			for i := 0; i < size; i++ {
+				dw = append(dw, 2)
+				nw = append(nw, fmt.Sprintf("c%02d", i))
+				dr = append(dr, 1, 2)
+				nr = append(nr, fmt.Sprintf("root%02d", i), "k")
+			}
+			c.StateN(3)
+			c.Inc("size_family_cases")
+			do(dc, nc, false)
+			do(dw, nw, false)
+			do(dr, nr, false)
+		}
 		// hostile names; From-Root additionally gets names Markdown cannot spell (empty, multi-line)
 		rootOnly := []string{"", "a\nb"}
 		all := append(append([]string{}, c04Hostile...), rootOnly...)
